@@ -314,6 +314,10 @@ class Universe:
 
     def api_data(self) -> Optional[Dict[str, Dict[str, Any]]]:
         d = {g["key"]: {k: list(v) for k, v in g["cols"].items()} for g in self.spec["groups"] if g["kind"] == "api"}
+        # decoy keys listed AFTER the real ones: further api data keys that repeat column names of a real key with other
+        # values (the first key providing a column is the one mloda binds it to) and may add unrelated columns
+        for dk in self.spec.get("api_decoys") or []:
+            d[dk["key"]] = {k: list(v) for k, v in dk["cols"].items()}
         return d or None
 
     def prepare(self, **kw: Any) -> Any:
